@@ -28,7 +28,7 @@ def drive(tier):
         return kk == "ret"
 
     def elem(e):
-        return e.serialize() if isinstance(e, COutPoint) else e
+        return e.serialize() if isinstance(e, COutPoint) else bytes(e)
 
     def history(flt, tid, k, steps, pool):
         """random inserts / queries / round trips on flt; returns the (possibly replaced) filter"""
@@ -36,6 +36,10 @@ def drive(tier):
         for _ in range(steps):
             c = r.random()
             e = r.choice(pool)
+            if not isinstance(e, COutPoint):
+                # the same byte string in the forms callers hand over: bytes, bytearray, memoryview, a script object
+                from bitcoin.core.script import CScript
+                e = r.choice([bytes, bytes, bytearray, memoryview, CScript])(bytes(e))
             if c < 0.45:
                 k += 1
                 add("bloom.insert", tid, k, {"e": b2l(elem(e))}, lambda: (box[0].insert(e), proj(box[0]))[1])
@@ -126,6 +130,8 @@ def drive(tier):
     arrive = []
     for ln in list(range(0, 71)) + [252, 253, 254, 255, 256]:
         arrive.append((bytes(ln) if ln % 3 else gen.rbytes(r, ln), r.choice([0, 1, 2, 5, 11, 50]), r.choice(tweaks), r.choice([0, 1, 2, 3, 4, 128, 255])))
+    for kfun in (49, 50, 51, 52, 60, 255, 300):          # the wire can carry more hash functions than the constructor would choose
+        arrive.append((bytes(r.choice([1, 7, 40])), kfun, r.choice(tweaks), 0))
     for kfun in (0, 1, 7, 50, 51, 1000, 2 ** 32 - 1):
         arrive.append((b"", kfun, r.choice(tweaks), 1))
     arrive.append((b"\xff", 3, 5, 0))
